@@ -651,14 +651,79 @@ pub fn gen_cases(topic: &str, seed: u64, n: usize, path: &str) -> Result<(), Str
     let mut g = G::new(seed ^ topic.bytes().fold(0u64, |a, b| a.wrapping_mul(131).wrapping_add(b as u64)));
     let mut w = BufWriter::new(File::create(path).map_err(|e| e.to_string())?);
     for _ in 0..n {
-        let c: J = match topic {
-            "lang" => {
-                let src = g.source(3);
-                let nd = 3 + g.r.below(4);
-                let docs: Vec<J> = (0..nd).map(|_| g.doc_for(&src)).collect();
-                json!({"topic":"lang","oracle":true,"wt":true,"src":src,"docs":docs,
-                       "plan":{"tri":true,"sws":[[]]}})
+        let src = g.source(3);
+        let nd = 3 + g.r.below(4);
+        let docs: Vec<J> = (0..nd).map(|_| g.doc_for(&src)).collect();
+        let all17 = J::Array(crate::run::all_sws());
+        let some_sws = {
+            let all = crate::run::all_sws();
+            let mut v = vec![all[0].clone(), all[16].clone()];
+            for _ in 0..3 {
+                v.push(all[1 + g.r.below(16)].clone());
             }
+            J::Array(v)
+        };
+        let c: J = match topic {
+            "lang" => json!({"topic":"lang","oracle":true,"wt":true,"src":src,"docs":docs,
+                             "plan":{"tri":true,"sws":[[]]}}),
+            // C01: every switch combination
+            "opt" => json!({"topic":"opt","oracle":true,"wt":true,"src":src,"docs":docs,
+                            "plan":{"tri":false,"sws":all17}}),
+            // C03: accepted rules never panic: all switches, adversarial documents, validate
+            "adv" => {
+                let mut tps = vec![];
+                let mut tns = vec![];
+                for i in 0..docs.len().min(2) {
+                    if g.r.chance(1, 2) { tps.push(json!({"d":i})); } else { tns.push(json!({"d":i})); }
+                }
+                if g.r.chance(1, 3) {
+                    let raw = match g.r.below(4) {
+                        0 => json!({"t":"S","s":cps("not a mapping")}),
+                        1 => json!({"t":"N"}),
+                        2 => json!({"t":"A","vs":[]}),
+                        _ => json!({"t":"I","neg":false,"d":[1]}),
+                    };
+                    if g.r.chance(1, 2) { tps.push(json!({"raw":raw})); } else { tns.push(json!({"raw":raw})); }
+                }
+                json!({"topic":"adv","oracle":true,"wt":true,"src":src,"docs":docs,"tps":tps,"tns":tns,
+                       "plan":{"tri":false,"sws":all17,"adv":true,"validate":true}})
+            }
+            // C12: repeats, prints, threads
+            "pure" => json!({"topic":"pure","oracle":true,"wt":true,"src":src,"docs":docs,
+                             "plan":{"tri":false,"scope":"sw","sws":some_sws,"expr":true,"repeat":3,"threads":4}}),
+            // C13: validate() against the rule's own examples
+            "val" => {
+                let mut tps = vec![];
+                let mut tns = vec![];
+                for i in 0..docs.len() {
+                    match g.r.below(3) {
+                        0 => tps.push(json!({"d":i})),
+                        1 => tns.push(json!({"d":i})),
+                        _ => {}
+                    }
+                }
+                if g.r.chance(1, 6) {
+                    let raw = match g.r.below(4) {
+                        0 => json!({"t":"S","s":cps("not a mapping")}),
+                        1 => json!({"t":"N"}),
+                        2 => json!({"t":"A","vs":[{"t":"S","s":cps("x")}]}),
+                        _ => json!({"t":"B","b":true}),
+                    };
+                    if g.r.chance(1, 2) { tps.push(json!({"raw":raw})); } else { tns.push(json!({"raw":raw})); }
+                }
+                json!({"topic":"val","oracle":true,"wt":true,"src":src,"docs":docs,"tps":tps,"tns":tns,
+                       "plan":{"tri":false,"scope":"sw","sws":[[], [true,true,true,true], [false,true,false,true]],"validate":true}})
+            }
+            // C14: serialise and reload, before and after optimisation
+            "ser" => {
+                let tps: Vec<J> = (0..docs.len().min(2)).map(|i| json!({"d":i})).collect();
+                json!({"topic":"ser","oracle":true,"wt":true,"src":src,"docs":docs,"tps":tps,"tns":[],
+                       "plan":{"tri":false,"scope":"sw","sws":[[], [true,true,true,true]],"ser":true,"via_value":true}})
+            }
+            // C11: every representation of the same logical document
+            "repr" => json!({"topic":"repr","oracle":true,"wt":true,"src":src,"docs":docs,
+                             "plan":{"tri":false,"scope":"sw","sws":[[], [true,true,true,true]],
+                                     "reprs":["json","jsontext","yamltext","hm","own","ownsigned","doc"]}}),
             _ => return Err(format!("unknown topic {}", topic)),
         };
         writeln!(w, "{}", c).map_err(|e| e.to_string())?;
